@@ -603,6 +603,24 @@ def write_evidence(prop, tier, base, flavours, results, crashes, found, new, see
     for r in results[:3]:
         samples.append({"seed": r["seed"], "sub": r["sub"], "executor": r.get("executor"), "kernel": r.get("kernel"), "height": r.get("height"), "particles": r.get("n"), "targets": r.get("nt"),
                         "threads": r.get("threads"), "policy": r.get("policy"), "event_hash": r.get("hash"), "tasks": r.get("stats", {}).get("tasks"), "scheduler_decisions": r.get("decisions")})
+    # one complete sample: the explicit scenario and the scheduler's decision log of a task-based run of this batch
+    full_sample = None
+    try:
+        cand = next((r for r in results if r.get("stats", {}).get("tasks", 0) > 3 and r.get("flavour") in ("plain", "asan") and r.get("n", 0) < 3000), None)
+        if cand:
+            p = subprocess.run([binary(cand["flavour"]), "--prop", prop, "--tier", tier, "--seed", str(cand["seed"]), "--sub", str(cand["sub"])],
+                               stdout=subprocess.PIPE, stderr=subprocess.DEVNULL, text=True, timeout=120)
+            for line in p.stdout.splitlines():
+                if line.startswith("RESULT "):
+                    rr = json.loads(line[7:]); sc = rr.get("scenario", {})
+                    full_sample = {"seed": cand["seed"], "sub": cand["sub"], "replays_to_same_event_hash": rr.get("hash") == cand.get("hash"),
+                                   "executor": sc.get("executor"), "ordering": sc.get("ordering"), "kernel": sc.get("kernel"), "height": sc.get("height"),
+                                   "block_size": sc.get("block_size"), "upper": sc.get("upper"), "threads_ctor": sc.get("threads_ctor"), "threads_exec": sc.get("threads_exec"),
+                                   "history": sc.get("history"), "first_particles": (sc.get("particles") or [])[:3], "nb_particles": len(sc.get("particles") or []),
+                                   "decisions_[point_ordinal,ready_pos,worker_pos]": (sc.get("decisions") or [])[:60], "nb_decisions": len(sc.get("decisions") or [])}
+    except Exception:
+        full_sample = None
+    if full_sample: samples.append(full_sample)
     ev = {
         "property_id": prop, "tier": tier, "seed": base, "level": "exploration",
         "coverage": {
